@@ -932,6 +932,7 @@ class Merger:
         # Merge into each insertion point
         merge_performed = False
         lhs_proc = Processor(self.logger, self.data)
+        inserted_rhs = rhs
         for target_idx, node_coord in enumerate(
             self._get_merge_target_nodes(insert_at, lhs_proc, rhs)
         ):
@@ -948,6 +949,15 @@ class Merger:
                 rhs = deepcopy(
                     rhs, {id(node): node for node in rhs_anchors.values()})
                 self.config.prepare(rhs)
+
+                if (target_node is inserted_rhs
+                    and node_coord.parent is not None
+                ):
+                    # A novel mergeat path created under several parents
+                    # holds the very same RHS under each; give this parent
+                    # its own copy
+                    node_coord.parent[node_coord.parentref] = rhs
+                    target_node = rhs
             Parsers.set_flow_style(
                 rhs, (target_node.fa.flow_style()
                       if hasattr(target_node, "fa")
